@@ -296,19 +296,39 @@ def check_marks(ctx, facts):
                 # (1) cursor at end of block
                 end_ok = False
                 cursor_ok = False
-                for T in all_tests(b):
-                    if T.kind == "cmp" and T.op == "Ge":
-                        pb = op_place(T.b)
-                        if pb and pb["p"] and isinstance(pb["p"][-1], dict) and pb["p"][-1].get("n") == "used" and b.edge_guards(T.true_edge, s.bb):
-                            # same block whose id is marked
-                            asrc, _, _ = origins(b, s.node["args"][0])
-                            if any(o.kind == "field" and o.what[1] == "id" for o in asrc):
-                                end_ok = True
-                                osrc, _, _ = origins(b, T.a)
-                                if any(o.kind == "field" and o.what == ("wal::runtime::reader::ColReaderInfo", "cur_block_offset") for o in osrc):
-                                    cursor_ok = True
+                planned = False
+                from .c02 import end_guards, _is_cursor_offset_load
+                from .core.symexpr import expr as _expr, strip_refs as _sr
+                for edge, off_op in end_guards(b):
+                    if not b.edge_guards(edge, s.bb):
+                        continue
+                    # same block whose id is marked
+                    asrc, _, _ = origins(b, s.node["args"][0])
+                    if not any(o.kind == "field" and o.what[1] == "id" for o in asrc):
+                        continue
+                    # what is compared with block.used must be a position the consumer has really reached:
+                    # the cursor's own offset, or that offset plus the size of the entry a consuming
+                    # read_next has just read (and returns). A *planned* end of range is not: the parser
+                    # may stop before it (entry cap, byte budget, incomplete entry)
+                    ea = _sr(_expr(b, off_op))
+                    reached = _is_cursor_offset_load(b, off_op)
+                    if reached:
+                        cursor_ok = True
+                    if not reached and ea[0] == "Add":
+                        osrc2, _, _ = origins(b, off_op)
+                        if any(o.kind == "call" and o.what.endswith("block::Block::read") for o in osrc2) and guarded(b, s.bb, checkpoint_edges(b)):
+                            reached = True
+                    if reached:
+                        end_ok = True
+                    else:
+                        planned = True
                 if end_ok:
                     ctx.ok("C12.3", caller, "mark dominated by `cursor offset >= block.used`", b.relfile, s.line)
+                elif planned:
+                    ctx.violate("C12.3", caller, "mark-on-planned-position", b.relfile, s.line,
+                                "a block is marked consumed because a position that has only been planned (not the cursor's own offset, nor the end of an entry this call "
+                                "returns) reaches block.used: the parser can stop earlier (entry cap, byte budget, incomplete entry), the cursor is then committed inside the block "
+                                "and the file can be reclaimed while entries of it are still unconsumed")
                 else:
                     ctx.violate("C12.3", caller, "mark-not-at-end-of-block", b.relfile, s.line, "a block is marked consumed without the cursor being at its end")
                 # (2) consuming read, or a mark justified by the shared cursor standing at the end of the
